@@ -80,30 +80,31 @@ type Machine struct {
 	fnInfo  map[*ssa.Function]*fnInfo
 
 	// per-path state
-	tape      []Decision
-	pos       int
-	pc        []*Term
-	model     Model
-	modelOK   bool
-	vars      []*Term
-	draws     []Draw
-	covers    map[string]bool
-	coverList []string
-	known     string
-	steps     int
-	nvar      int
-	siblings  []WorkItem
-	frames    []*frame
-	pools     map[*Value][]Value // sync.Pool model: pool address -> put objects
-	forced    int
-	decided   int
-	choices   int
-	natives   map[string]interface{}
-	atoms     map[*Term]bool // atoms already decided on this path
-	mapReverse bool          // range over maps in reverse insertion order
-	mapFlips   int           // remaining individually reversed range statements (adversarial order)
-	facts     map[*Term]ival // interval facts implied by the path condition
-	rmemo     map[*Term]ival
+	tape       []Decision
+	pos        int
+	pc         []*Term
+	model      Model
+	modelOK    bool
+	vars       []*Term
+	draws      []Draw
+	covers     map[string]bool
+	coverList  []string
+	known      string
+	steps      int
+	nvar       int
+	siblings   []WorkItem
+	frames     []*frame
+	pools      map[*Value][]Value // sync.Pool model: pool address -> put objects
+	forced     int
+	decided    int
+	choices    int
+	natives    map[string]interface{}
+	atoms      map[*Term]bool // atoms already decided on this path
+	sch        schedState
+	mapReverse bool           // range over maps in reverse insertion order
+	mapFlips   int            // remaining individually reversed range statements (adversarial order)
+	facts      map[*Term]ival // interval facts implied by the path condition
+	rmemo      map[*Term]ival
 
 	// statistics
 	Stats struct {
@@ -142,6 +143,7 @@ func NewMachine(p *Program, solverName string, cfg Config) (*Machine, error) {
 	}
 	m := &Machine{C: NewCtx(), S: s, Prog: p, Cfg: cfg,
 		globals: map[*ssa.Global]*Value{}, inited: map[*ssa.Package]bool{}, fnInfo: map[*ssa.Function]*fnInfo{}}
+	m.resetSched()
 	m.Stats.Funcs = map[string]int{}
 	m.Stats.Intrinsics = map[string]int{}
 	m.Stats.ForkSites = map[string]int{}
@@ -727,6 +729,7 @@ func (m *Machine) RunPath(fn *ssa.Function, item WorkItem) (out Outcome, sibling
 	m.mapReverse = false
 	m.mapFlips = 0
 	m.forced, m.decided, m.choices = 0, 0, 0
+	m.resetSched()
 	mark := len(m.trail)
 	m.S.Push()
 	out.Kind = "ok"
@@ -750,6 +753,7 @@ func (m *Machine) RunPath(fn *ssa.Function, item WorkItem) (out Outcome, sibling
 		}()
 		m.call(fn, nil)
 	}()
+	m.killGors()
 	if out.Kind == "violation" || out.Kind == "panic" || out.Kind == "ok" || out.Kind == "budget" {
 		// make sure there is a model for the path
 		if !m.modelOK && m.S.Err() == nil {
